@@ -40,6 +40,9 @@ type c07Cfg struct {
 	// FB == 3 (mandatory / opportunistic): WithTLSPortPolicy, the dial to the primary port is refused and the
 	// connection to the fallback port is the one judged.
 	FB int `json:"fb,omitempty"`
+	// Setters: the Client is constructed with the OPPOSITE settings (no TLS where TLS is wanted and vice versa, another
+	// auth type, other credentials) and then configured through SetTLSPolicy / SetSMTPAuth / SetUsername / SetPassword
+	Setters bool `json:"setters,omitempty"`
 }
 
 // c07FBMu serialises the fallback-port cases of one process (they listen on the fixed port 25 of a
@@ -109,6 +112,7 @@ func c07Exec(r *vf.Run, cfg c07Cfg) []finding {
 		conn.InjectAfterStartTLS = "250-" + host + " injected\r\n250 AUTH PLAIN LOGIN\r\n"
 	}
 	opts := []mail.Option{mail.WithHELO("client.example.test"), mail.WithTLSConfig(hx.ClientTLS(host))}
+	var post []func(*mail.Client)
 	var bridge *hx.Bridge
 	if cfg.Policy == 3 && cfg.FB > 0 {
 		conn.ImplicitTLS = cfg.FB == 2
@@ -154,6 +158,14 @@ func c07Exec(r *vf.Run, cfg c07Cfg) []finding {
 		}}
 		opts = append(opts, mail.WithDialContextFunc(rig.Dial))
 		switch {
+		case cfg.Setters:
+			pol := []mail.TLSPolicy{mail.TLSMandatory, mail.TLSOpportunistic, mail.NoTLS}[cfg.Policy]
+			opp := mail.NoTLS
+			if cfg.Policy == 2 {
+				opp = mail.TLSMandatory
+			}
+			opts = append(opts, mail.WithTLSPolicy(opp))
+			post = append(post, func(c *mail.Client) { c.SetTLSPolicy(pol) })
 		case cfg.Policy == 0 && cfg.FB == 3:
 			opts = append(opts, mail.WithTLSPortPolicy(mail.TLSMandatory))
 		case cfg.Policy == 1 && cfg.FB == 3:
@@ -170,7 +182,14 @@ func c07Exec(r *vf.Run, cfg c07Cfg) []finding {
 		"CRAM-MD5": mail.SMTPAuthCramMD5, "XOAUTH2": mail.SMTPAuthXOAUTH2, "SCRAM-SHA-1": mail.SMTPAuthSCRAMSHA1, "SCRAM-SHA-1-PLUS": mail.SMTPAuthSCRAMSHA1PLUS,
 		"SCRAM-SHA-256": mail.SMTPAuthSCRAMSHA256, "SCRAM-SHA-256-PLUS": mail.SMTPAuthSCRAMSHA256PLUS, "AUTODISCOVER": mail.SMTPAuthAutoDiscover}
 	an := c07Auths[cfg.Auth]
-	if t, ok := types[an]; ok {
+	if t, ok := types[an]; ok && cfg.Setters {
+		other := mail.SMTPAuthPlainNoEnc
+		if t == other {
+			other = mail.SMTPAuthLoginNoEnc
+		}
+		opts = append(opts, mail.WithSMTPAuth(other), mail.WithUsername("someone-else"), mail.WithPassword("another-Passw0rd"))
+		post = append(post, func(c *mail.Client) { c.SetSMTPAuth(t); c.SetUsername(c07User); c.SetPassword(c07Pass) })
+	} else if ok {
 		opts = append(opts, mail.WithSMTPAuth(t), mail.WithUsername(c07User), mail.WithPassword(c07Pass))
 	} else if strings.HasPrefix(an, "CUSTOM") {
 		opts = append(opts, mail.WithSMTPAuthCustom(smtp.PlainAuth("", c07User, c07Pass, host, false)))
@@ -179,6 +198,9 @@ func c07Exec(r *vf.Run, cfg c07Cfg) []finding {
 	if err != nil {
 		r.HarnessError("C07 NewClient: %v", err)
 		return nil
+	}
+	for _, f := range post {
+		f(cl)
 	}
 	if cfg.Prev > 0 && cfg.Policy != 3 {
 		// history: an earlier, successful connection of the same Client
@@ -327,7 +349,7 @@ func init() {
 	vf.Register(&vf.Check{
 		ID: "C07", Title: "TLS policy and credential confidentiality hold against any server",
 		Run: func(r *vf.Run) {
-			r.SetRule("the full product TLS policy {mandatory, opportunistic, none, implicit (go-mail's own TLS dialer over a loopback bridge)} × 13 auth types × (mandatory/opportunistic) WithTLSPortPolicy with the primary port refusing × (implicit TLS) fallback enabled with the primary port refusing and the fallback port 25 served by a plain-text or an implicit-TLS server × host name {mail.example.test, five remote names that resemble loopback names (localhost.example.test, 127.0.0.1.example.test, …), localhost, 127.0.0.1} × server behaviour {STARTTLS advertised or not; reply 220 / 454 / 501 / garbage / 220 followed by injected plaintext; handshake ok / wrong-name certificate / untrusted certificate / garbage; 7 advertised AUTH lists}, each executed with real crypto/tls handshakes where reached; oracle on the byte tap of everything the client wrote before/after the switch to TLS; distinct by configuration")
+			r.SetRule("the full product TLS policy {mandatory, opportunistic, none, implicit (go-mail's own TLS dialer over a loopback bridge)} × 13 auth types × (mandatory/opportunistic) WithTLSPortPolicy with the primary port refusing × (implicit TLS) fallback enabled with the primary port refusing and the fallback port 25 served by a plain-text or an implicit-TLS server × configuration through options or through the Client's setters (after construction with the opposite settings) × host name {mail.example.test, five remote names that resemble loopback names (localhost.example.test, 127.0.0.1.example.test, …), localhost, 127.0.0.1} × server behaviour {STARTTLS advertised or not; reply 220 / 454 / 501 / garbage / 220 followed by injected plaintext; handshake ok / wrong-name certificate / untrusted certificate / garbage; 7 advertised AUTH lists}, each executed with real crypto/tls handshakes where reached; oracle on the byte tap of everything the client wrote before/after the switch to TLS; distinct by configuration")
 			r.Assume("a completed server-side handshake implies the client accepted the certificate (TLS 1.2/1.3 semantics)", "implicit TLS is only exercised against loopback addresses (go-mail's dialer needs a real socket; the fallback cases listen on port 25 of 127.x.y.z)")
 			var cfgs []c07Cfg
 			for pol := 0; pol < 4; pol++ {
@@ -372,6 +394,9 @@ func init() {
 											continue
 										}
 										cfgs = append(cfgs, c07Cfg{Policy: pol, Auth: a, Local: local, HostIdx: hostIdx, Adv: adv, STReply: st, HS: hs, AuthList: al})
+										if hostIdx == 0 && c07Auths[a] != "none" && !strings.HasPrefix(c07Auths[a], "CUSTOM") {
+											cfgs = append(cfgs, c07Cfg{Policy: pol, Auth: a, Local: local, HostIdx: hostIdx, Adv: adv, STReply: st, HS: hs, AuthList: al, Setters: true})
+										}
 										if hostIdx == 0 && pol <= 1 && (st == 0 || st == 1) {
 											// WithTLSPortPolicy: the first dial is refused, the fallback connection is judged
 											cfgs = append(cfgs, c07Cfg{Policy: pol, Auth: a, Local: local, HostIdx: hostIdx, Adv: adv, STReply: st, HS: hs, AuthList: al, FB: 3})
